@@ -50,9 +50,10 @@ tier, seed 0; every one reported VIOLATION, listed with the mechanisms that fire
     stored index ("floor-correction" of the source comment)     for exactly the markers in the floor-shifted branch (needs REQUIRE)
 16  3D vector interpolation: z-window of component 2 from idx[1] interpolation-raises (non-cubic grid: clipped slice cannot broadcast)
 17  2D Peskin sqrt argument 4 r^2 -> 4.001 r^2 (one factor)     weights!=closed-form-delta (err/tol 5 in float32), sum-weights!=1 (2e-5)
-Not a mutant but a limit worth knowing: adding 1e-9 to the floor quotient (index k instead of k-1 one ulp below a
-centre) is an equivalent change -- distances are recomputed from whichever index is stored, the extra cell gets
-phi(2+) = 0; the property holds for both, and the check is silent for both.
+18  (probe of an equivalent change) floor(q + 1e-9) instead of //  no violation; INCONCLUSIVE because no float64 on-centre marker is
+                                                                indexed to the lower cell any more (REQUIRE).  Distances are recomputed
+                                                                from whichever index is stored and the extra cell gets phi(2+) = 0, so
+                                                                the property holds for both variants and the monitors stay silent.
 """
 import numpy as np
 
